@@ -1,5 +1,6 @@
 import Mutagen.Driver.Util
 import Mutagen.Driver.Tree
+import Mutagen.Model.PathString
 namespace Mutagen.Driver.C07
 open Mutagen.Driver Mutagen.Driver.Tree Mutagen.Model
 
@@ -14,6 +15,8 @@ Line: `<op> <args…>` (trees, changes, paths in the encoding of `Driver/Tree.le
   `valid <0|1> <a>`         → `a.EnsureValid(sync) == nil` as 0/1 (`validgen`: same, on generated valid trees)
   `equal <0|1> <a> <b>`     → `a.Equal(b, deep)` as 0/1
   `problems <a>`            → sorted `path!text` list of `a.Problems()`
+  `glue <name,name,…>`      → hex of the path string built by `Joinable(path)+name` from the root, `|`,
+                              the components `Apply` derives from it (`""` = root, else `strings.Split(path,"/")`)
   `chvalid <0|1> <change>`  → `Change.EnsureValid(sync) == nil`, then `|` and the slim change,
                               then root-deletion and root-type-change flags
 -/
@@ -56,6 +59,12 @@ def run : List String → Option String
     let c ← parseChange c
     pure (showBool (c.ensureValid (← parseFlag s)) ++ "|" ++ showChange c.slim ++ "|" ++
       showBool c.isRootDeletion ++ showBool c.isRootTypeChange)
+  | ["glue", ns] => do
+    let names ← (listField ns).mapM decText
+    let path := PathString.join (names.map String.toList)
+    let comps := (PathString.components path).map String.ofList
+    pure (encHex (String.ofList path).toUTF8.toList ++ "|" ++
+      (if comps.isEmpty then "-" else ",".intercalate (comps.map encText)))
   | _ => none
 
 def handle (line : String) : String :=
